@@ -198,7 +198,7 @@ async fn run_case(c: &Case) -> CheckResult {
     let mut codecs: Vec<PeerCodec> = Vec::new();
     let mut live = [false; 2];
     for i in 0..2u8 {
-        let src = IpAddr::V4(Ipv4Addr::new(127, 0, 11, 2 + i));
+        let src = crate::props::wirepeer::fresh_loopback();
         let cfg = NeighborCfg { addr: src, remote_asn: 65101 + i as u32, local_asn: 0, rs_client: false, rr_client: false, cluster_id: None, admin_down: false, holdtime: 90, families: vec![(Family::IPV4, 0)], prefix_limit: None, gr: None, llgr: None };
         if !rig.add_neighbor(&cfg).await {
             return Err(Failure::new("harness", "add_peer refuses the neighbour".to_string()));
